@@ -6,7 +6,7 @@ import sys
 import traceback
 
 CORE = {"C01", "C02", "C03", "C04", "C07", "C13"}
-QUERY = {"C06", "C08", "C09", "C10", "C15", "C16"}
+QUERY = {"C06", "C08", "C09", "C10", "C15", "C16", "C17"}
 
 
 def main(argv):
